@@ -170,13 +170,18 @@ func buildKindTables(prog *Program, a *Anchors) *kindTables {
 		}
 		ps := NewPathSim(prog)
 		ps.Inline = func(c *ssa.Function) bool { return c != f && (prog.InModule(c) || isSynthetic(c)) && !recursive(prog, c) }
-		first, second := paramSym(f.Params[0]), paramSym(f.Params[1])
+		lp, vp := cmpParams(f)
+		if lp == nil || vp == nil {
+			kt.problems = append(kt.problems, "comparator "+f.Name()+" does not take (literal, value)")
+			continue
+		}
+		first, second := paramSym(lp), paramSym(vp) // the literal and the value, whichever comes first
 		start := newState()
 		if kt.cmpSym[f] != nil && kt.cmpSym[f].K == sClosure && prog.SSA != nil {
 			start = prog.Globals().st // what the closure captured was set up by the package initialiser
 		}
 		before := len(start.events)
-		sums := ps.ApplyClosure(start, kt.cmpSym[f], []*Sym{first, second})
+		sums := ps.ApplyClosure(start, kt.cmpSym[f], []*Sym{paramSym(f.Params[0]), paramSym(f.Params[1])})
 		adm := ksAll
 		var body []string
 		if len(sums) != 1 {
@@ -597,7 +602,7 @@ func (c *c09ctx) analyseFunc(fn *ssa.Function) {
 				return
 			}
 			xs := symOf(x.X)
-			if isCmp && x.X == ssa.Value(f.Params[0]) {
+			if lp, _ := cmpParams(f); isCmp && lp != nil && x.X == ssa.Value(lp) {
 				c.record(ins, "type-assert", f.Name()+":assert:"+types.TypeString(x.AssertedType, nil), true, "", st)
 				c.site(ins, "", "").note = "discharged by sibling-table agreement + comparator call sites"
 				return
@@ -725,7 +730,7 @@ func (c *c09ctx) analyseFunc(fn *ssa.Function) {
 			c.site(ins, "", "").note = "discharged by sibling-table agreement: an accessor a comparator was built with"
 			return
 		}
-		if isCmp && len(f.Params) > 1 && recv.Key() == paramSym(f.Params[1]).Key() {
+		if _, vp := cmpParams(f); isCmp && len(f.Params) > 1 && vp != nil && recv.Key() == paramSym(vp).Key() {
 			c.record(ins, "reflect-value", f.Name()+":Value."+name, true, "", st)
 			c.site(ins, "", "").note = "discharged by sibling-table agreement + comparator call sites"
 			return
@@ -1237,14 +1242,14 @@ func (c *c09ctx) comparatorCallOK(st *pstate, ev *Event, tableCall *ssa.Call) (b
 		return false, "unexpected comparator call shape"
 	}
 	k1 := targs[0]
-	mv, v := ev.Args[0], ev.Args[1]
+	mv, v := ev.Args[c.a.EqLitIdx], ev.Args[c.a.EqValIdx]
 	// the literal
 	if mv.K != sRes || mv.Idx != 0 {
-		return false, "the first argument of the comparator is not the coerced literal: " + shortKey(mv)
+		return false, "the literal argument of the comparator is not the coerced literal: " + shortKey(mv)
 	}
 	fn, call := calleeOfSym(mv.A)
 	if fn != c.a.CoerceTab || call == nil {
-		return false, "the first argument of the comparator does not come from the coercion table"
+		return false, "the literal argument of the comparator does not come from the coercion table"
 	}
 	cargs := symArgs(st, mv.A)
 	if len(cargs) != 2 || c.a.coerceKindArg(cargs).Key() != k1.Key() {
